@@ -239,6 +239,12 @@ def run_compose(ctx, desc):
                 check_compose(ctx, s, det, langs, not ugo, dl)
                 check_compose(ctx, s, det, langs, ugo, dl)
     if desc["i"] == 0:
+        zc = zone_word_cases()
+        ctx.count("zone_word_cases", len(zc))
+        for s, langs in zc:
+            for ugo in (False, True):
+                check_compose(ctx, s, None, langs, ugo, None)
+                check_compose(ctx, s, None, list(reversed(langs)), ugo, None)
         for langs in (["fr", "en"], ["de", "en"], ["es", "en", "fr"], ["ja", "en"], ["ru", "fr", "en"]):
             for s in ("02/03/2015", "12 2015", "1.2.2003"):
                 for ugo in (False, True, False, True):
@@ -297,6 +303,60 @@ def check_mixed(ctx, langs, region, s):
     ctx.count("mixed:ok")
 
 
+def check_region_only(ctx, region, locs):
+    """A region given alone (no languages): only the locales of that region are used, through either entry point.  Asserted
+    for regions whose locales all share one date order (read from the data files): a discriminating numeric date reads that way."""
+    import dateparser
+    from dateparser.date import DateDataParser
+    from ..oracles import vocab
+
+    orders = {vocab.locale_info(loc).get("date_order") or "MDY" for loc in locs}
+    if len(orders) != 1:
+        ctx.count("region_only:mixed-orders-skipped")
+        return
+    o = orders.pop()
+    f = {"D": "03", "M": "02", "Y": "2015"}
+    s = "/".join(f[c] for c in o)
+    exp = datetime(2015, 2, 3)
+    case = {"kind": "region-only", "region": region, "string": s, "order": o}
+    for api in ("parse", "ddp"):
+        try:
+            if api == "parse":
+                r = dateparser.parse(s, region=region)          # nothing but the region: the function entry point's own plumbing
+            else:
+                r = DateDataParser(region=region).get_date_data(s)["date_obj"]
+        except Exception as e:
+            r = e
+        ctx.ran()
+        if r != exp:
+            ctx.violation(dict(case, api=api), r, exp, "region-conventions-not-applied", {"kind": "region-only", "api": api})
+            return
+    ctx.nontrivial("region-only", region)
+    ctx.count("region_only:ok")
+
+
+def zone_word_cases():
+    """[(string, [languages])]: a numeric date followed by a zone abbreviation that is also a vocabulary word of one of the
+    selected languages (the zone is popped for one language, read as a word by the other)."""
+    from dateparser.data.languages_info import language_order
+    from ..gen.common import tz_table
+    from ..oracles import vocab
+
+    abbrs = sorted({n for n, _ in tz_table() if n.isalpha() and 2 <= len(n) <= 5})
+    out = []
+    for lang in list(language_order)[:60]:
+        try:
+            mm = vocab.meaning_map(vocab.locale_info(lang, lang), True)
+        except Exception:
+            continue
+        hits = [a for a in abbrs if a.lower() in mm]
+        for a in hits[:3]:
+            for other in ("en", "fr"):
+                if other != lang:
+                    out.append(("02/03/2015 10:00 %s" % a, [other, lang]))
+    return out
+
+
 def check_invalid_pair(ctx, lang, region, s):
     """languages=[L], region=R where L-R is not a locale: the selection is empty, so nothing may be reported (in particular
     not a locale of another language that merely shares L's prefix, such as zh-Hans-HK for zh + HK)."""
@@ -353,6 +413,11 @@ def run_regions(ctx, desc):
             for s in ["02/03/2015"] + ([named] if named else []):
                 check_invalid_pair(ctx, lang, region, s)
     ctx.count("invalid_pair_languages", len(list(language_order)[desc["i"]::desc["k"]]))
+    by_region = {}
+    for loc in all_locs:
+        by_region.setdefault(loc.rsplit("-", 1)[1], []).append(loc)
+    for region in sorted(by_region)[desc["i"]::desc["k"]]:
+        check_region_only(ctx, region, by_region[region])
     if desc["i"] == 0:
         for langs, region in ([["en", "fr"], "CA"], [["en", "fr"], "US"], [["fr", "en"], "BE"], [["de", "en", "fr"], "CH"],
                               [["en", "es"], "MX"], [["pt", "en"], "BR"], [["en", "fr"], "XX"], [["es", "en"], "IN"],
@@ -416,6 +481,11 @@ def replay_case(ctx, v):
         check_autodetect(ctx, c["string"])
     elif c["kind"] == "region":
         check_region(ctx, c["language"], c["locale"], c["string"])
+    elif c["kind"] == "region-only":
+        from dateparser.data.languages_info import language_locale_dict, language_order
+
+        locs = [loc for L in language_order for loc in language_locale_dict[L] if loc.rsplit("-", 1)[1] == c["region"]]
+        check_region_only(ctx, c["region"], locs)
     elif c["kind"] == "invalid-pair":
         check_invalid_pair(ctx, c["language"], c["region"], c["string"])
     else:
